@@ -32,6 +32,17 @@ SPEC_CLAUSES = {
     "changes": "a hunk contains no changed line",
     "diffmatch": "DiffMatch emptiness differs from the placeholder semantics",
     "diff-panic": "Diff panicked instead of returning",
+    "flm-sound": "findLongestMatch returned a block outside the window or slices that differ",
+    "flm-maximal": "findLongestMatch missed a longer common run inside the window",
+    "flm-panic": "findLongestMatch panicked",
+    "blocks": "matchingBlocks: not a list of non-empty equal slices in increasing order followed by the sentinel",
+    "opcodes-tile": "GetOpCodes: the codes do not tile both texts, or a tag's promise is broken",
+    "lists-panic": "matchingBlocks/GetOpCodes/GetGroupedOpCodes/makeUnifiedDiff panicked on two line lists",
+    "lists-empty-iff": "makeUnifiedDiff on line lists: empty output although the lists differ, or output although equal",
+    "lists-format": "makeUnifiedDiff on line lists: output is not a unified diff of the expected shape",
+    "lists-patch": "makeUnifiedDiff on line lists: the hunks applied to the first list do not give the second",
+    "lists-headers": "makeUnifiedDiff on line lists: a hunk header disagrees with its body",
+    "lists-context": "makeUnifiedDiff on line lists: more than three unchanged lines at an end of a hunk",
     "diffmatch-panic": "DiffMatch panicked on a well-formed expectation",
 }
 
@@ -78,6 +89,7 @@ def build_go():
     tdir = os.path.join(VERIF, "harness", "diffgen")
     shutil.copyfile(os.path.join(tdir, "main.go.tmpl"), os.path.join(gd, "main.go"))
     shutil.copyfile(os.path.join(tdir, "go.mod.tmpl"), os.path.join(gd, "go.mod"))
+    shutil.copyfile(os.path.join(tdir, "shim.go.tmpl"), os.path.join(gd, "ztest", "shim.go"))
     shutil.copyfile(diff_src(), os.path.join(gd, "ztest", "diff.go"))
     binp = os.path.join(WD, "diffgen")
     rc, out = sh("timeout 300 go build -o %s ." % binp, cwd=gd, timeout=330)
@@ -123,11 +135,36 @@ def case_of(line):
     f = fields(line)
     if "items" in f:
         return "M %s %s %s ?" % (f["have"], f["items"], f["want"])
+    if "alo" in f:
+        return "G %s %s %s %s %s %s" % (f["A"], f["B"], f["alo"], f["ahi"], f["blo"], f["bhi"])
+    if "A" in f:
+        return "B %s %s %s" % (f.get("gen", "replay"), f["A"], f["B"])
+    if "start" in f:
+        return "F %s %s" % (f["start"], f["stop"])
+    if "text" in f:
+        return "S %s" % f["text"]
     return "D %s %s %s ?" % (f.get("gen", "replay"), f["have"], f["want"])
+
+
+def unlist(e):
+    n, h = e.split(":", 1)
+    return [] if n == "0" else [l + "\n" for l in unhex(h).split("\n")]
 
 
 def readable(line):
     f = fields(line)
+    if "A" in f:
+        d = {"A": unlist(f["A"]), "B": unlist(f["B"])}
+        for k in ("alo", "ahi", "blo", "bhi", "result", "blocks", "opcodes", "groups", "model"):
+            if k in f:
+                d[k] = f[k]
+        if "out" in f:
+            d["makeUnifiedDiff"] = unhex(f["out"])
+        if "panic" in f:
+            d["panic"] = unhex(f["panic"])
+        return d
+    if "start" in f or "text" in f:
+        return {k: (unhex(v) if k in ("text", "out") else v) for k, v in f.items()}
     d = {"have": unhex(f.get("have", "-")), "want": unhex(f.get("want", "-"))}
     if "out" in f:
         d["implementation_output"] = unhex(f["out"])
@@ -149,7 +186,7 @@ def check_C20(run):
     thorough = run.tier == "thorough"
     with Lock():
         ok_static, log_static, ok, log, okh, logh, genbin, okd, logd = build_all()
-        total, done, failed = proof_obligations(PROOF_FILES, log, ok)
+        total, done, failed = proof_obligations(PROOF_FILES, (log_static if not ok_static else "") + log, ok)
         pa_closed, pa_axioms = 0, []
         if ok:
             okp, pa_closed, pa_axioms, _ = props_assumptions("props/C20.v")
@@ -203,7 +240,11 @@ def check_C20(run):
                       {"clause": clause, "case": case_of(m), "input": readable(m),
                        "how": "bin/check %s --replay <this file>" % pid})
     if not ok_static:
-        run.violation("static-proof", "hand-written Coq development does not build", {"theorem": "theories/*", "log": log_static[-3000:]}, nofail=True)
+        if not spec_m:
+            run.violation("static-proof", "hand-written Coq development does not build: " + ", ".join(failed),
+                          {"theorem": "theories/*", "failed": failed, "log": log_static[-3000:]}, nofail=True)
+        else:
+            notes.append("static development does not build: " + ", ".join(failed))
     elif not ok:
         if not spec_m:
             run.violation("obligation-" + ",".join(failed)[:80], "proof no longer checks: " + ", ".join(failed),
@@ -224,6 +265,7 @@ def check_C20(run):
                        + ("; coqchk -silent -o FsnProps.C20" if thorough else ""),
         "trusted_base": TRUSTED_COMMON + [
             "extraction: " + "; ".join(EXTRACT_DIRECTIVES), "OCaml 4.13.1, driver/diffdriver.ml",
+            "harness/diffgen/shim.go.tmpl: forwarding functions added to the copied package to reach the unexported functions",
             "harness/diffgen (Go) runs a verbatim copy of internal/ztest/diff.go (sha256 %s) outside the module" % file_sha(diff_src()),
             "Go regexp, strings.TrimSpace/SplitAfter, fmt %d are trusted; the model's TrimSpace is ASCII only",
             "DiffMatch: only emptiness, only the documented placeholders, ASCII text; %(..) free form, DiffNormalizeWhitespace and DiffJSON options are not modelled",
@@ -232,9 +274,12 @@ def check_C20(run):
         "failed_obligations": failed,
         "coqchk": chk,
         "evaluations": evals,
-        "distinct_nontrivial": counts.get("distinct_nontrivial.diff", 0) + counts.get("distinct_nontrivial.match", 0),
+        "distinct_nontrivial": counts.get("distinct_nontrivial.diff", 0) + counts.get("distinct_nontrivial.match", 0)
+                               + counts.get("distinct_nontrivial.lists", 0),
         "rule": "distinct = distinct (have, want) input pairs (measured by the driver); non-trivial = Diff cases whose real output is a "
-                "non-empty diff (parsed, patched, headers and context checked) plus DiffMatch cases whose expectation has a placeholder",
+                "non-empty diff (parsed, patched, headers and context checked) plus DiffMatch cases whose expectation has a placeholder "
+                "plus pairs of differing line lists given to matchingBlocks/GetOpCodes/GetGroupedOpCodes/makeUnifiedDiff; "
+                "findLongestMatch windows, formatRangeUnified and splitLines cases are counted in evaluations only",
         "driver_counts": counts, "driver_summary": summary,
         "model_mismatches": len(model_m), "spec_mismatches": len(spec_m),
         "exhaustive": "lines over {a,b,c} up to length %d on both sides; raw texts over {a,b,space,newline} all pairs up to length %d"
